@@ -41,6 +41,7 @@ def judge(ctx, cases, nontrivial, ex):
         elif ctx.cov["evaluations"] % 1500 == 1:
             ctx.sample({"ra": v["ra"], "rv": v["rv"], "tagged": v["tagged"], "observed": {k: o[k] for k in ("rwhere", "returned", "status", "cerr")}})
     ex.prepare([c["v"] for c, _ in pending])
+    hc.validate_cases(ctx, cases, "C03", skip_ids={c["id"] for c, _ in pending}, ex=ex)
     for c, problems in pending:
         v, o = c["v"], c["obs"]
         dev = ex.explain(v, o, focus=["invoked", "status", "cerr", "returned"])
@@ -56,7 +57,7 @@ def run(ctx):
     ctx.cov["rule"] = ("cases = (result shape, result value vector, tagged response or not) enumerated by TLC from HTTPTransport.tla (result family); "
                        "non-trivial = tagged response, or an attribute outside the body or optional/defaulted; distinct = canonical JSON")
     ctx.mc_expect_violation("mc/MC_HTTPTransport", consts={"Family": '"res"', "Deviations": '{"response.header_array_joined"}'}, label="MC dev response.header_array_joined")
-    frac = float(os.environ.get("VERIF_FRAC") or (0.25 if quick else 1.0))
+    frac = float(os.environ.get("VERIF_FRAC") or (0.12 if quick else 1.0))
     vectors = hc.sample_shapes(hc.gen_vectors(ctx, "res", 1, 1), frac, ctx.seed)
     cases, pl = hc.run_family(ctx, "res", vectors)
     for i, f in sorted(pl.failed.items()):
